@@ -371,7 +371,8 @@ fn run_case(case: &Case) -> Res {
     setup.funding_outpoint = OutPoint { txid: funding_tx.compute_txid(), vout: case.fvout };
     r.calls += 1;
     let before = if crate::monitors::grid_monitors() { Some(w.snapshot()) } else { None };
-    let so = w.setup_channel(DBID, &setup);
+    // (v.wire: by the SetupChannel message through the channel handler)
+    let so = if e.v.wire { w.setup_channel_wire(DBID, &setup) } else { w.setup_channel(DBID, &setup) };
     crate::monitors::around(&w, &before, &so, "setup_channel", &mut r.mon);
     // "becomes usable only with ...": a refused setup must leave the slot a stub, and repeating
     // the identical request must be refused again; otherwise the channel did become usable and
@@ -383,7 +384,7 @@ fn run_case(case: &Case) -> Res {
             if w.peek_chan(DBID, |_| ()).is_some() {
                 after_refusal = "ready-after-refusal";
                 Outcome::Ok(())
-            } else if w.setup_channel(DBID, &setup).is_ok() {
+            } else if (if e.v.wire { w.setup_channel_wire(DBID, &setup) } else { w.setup_channel(DBID, &setup) }).is_ok() {
                 after_refusal = "accepted-on-identical-retry";
                 Outcome::Ok(())
             } else {
@@ -748,6 +749,10 @@ fn bases(tier: Tier) -> Vec<Case> {
     // the channel's output is not always the first of its funding transaction: every base under the
     // on-chain validator (whose verdict depends on what the monitor saw on chain) also with a change
     // output in front of it
+    // set-up by the SetupChannel message through the channel handler: the set-up bases and the
+    // first-commitment bases of the simple validator (tight and default policy)
+    let by_wire: Vec<Case> = v.iter().filter(|c| !c.onchain && !c.ucs && c.pol < 2 && c.n == 0).map(|c| { let mut c = c.clone(); c.v.wire = true; c }).collect();
+    v.extend(by_wire);
     let with_change: Vec<Case> = v.iter().filter(|c| c.onchain && c.entry != Entry::Setup && c.n == 1).map(|c| { let mut c = c.clone(); c.fvout = 1; c }).collect();
     v.extend(with_change);
     v
